@@ -274,6 +274,8 @@ pub fn rich_templates() -> Vec<(String, String)> {
         ("empty.html".into(), "".into()),
         ("text.html".into(), "only text é 日本".into()),
         ("err.html".into(), "before{{ 1 / 0 }}after".into()),
+        ("blob.html".into(), "{{ blob }}|{{ [blob] }}|{% for b in blobs %}<{{ b }}>{% endfor %}|{{ blob | safe }}{% set c %}{{ blob }}{% endset %}{{ c }}".into()),
+        ("blob.txt".into(), "{{ blob }}{% include \"blob.html\" %}{{ blobs }}".into()),
         ("err_in_include.html".into(), "A{% include \"err.html\" %}B".into()),
     ]
 }
@@ -287,10 +289,14 @@ pub fn rich_context(variant: u64) -> tera::Context {
     user.insert("name", "N'é".to_string());
     user.insert("bio", ["<b>bio</b>", "", "plain"][(variant % 3) as usize].to_string());
     c.insert("user", &user);
+    // byte strings: valid, invalid and truncated UTF-8
+    const BLOBS: [&[u8]; 6] = [b"ok<", b"caf\xC3", b"\xff\xfe", b"\xE6\x97", b"", b"\xF0\x9F\x98"];
+    c.insert_value("blob", tera::Value::bytes(BLOBS[(variant % 6) as usize].to_vec()));
+    c.insert_value("blobs", tera::Value::from(BLOBS.iter().map(|b| tera::Value::bytes(b.to_vec())).collect::<Vec<_>>()));
     c
 }
 pub fn rich_requests() -> Vec<Req> {
-    let mut v: Vec<Req> = ["base.html", "page.html", "foot.html", "deep.txt", "plain.txt", "empty.html", "text.html", "err.html", "err_in_include.html", "lib.html", "nope.html"].iter().map(|s| Req::Template(s.to_string())).collect();
+    let mut v: Vec<Req> = ["base.html", "page.html", "foot.html", "deep.txt", "plain.txt", "empty.html", "text.html", "err.html", "err_in_include.html", "lib.html", "nope.html", "blob.html", "blob.txt"].iter().map(|s| Req::Template(s.to_string())).collect();
     for (t, b) in [("page.html", "head"), ("page.html", "body"), ("page.html", "inner"), ("base.html", "body"), ("base.html", "head"), ("page.html", "nope")] {
         v.push(Req::Block(t.into(), b.into()));
     }
@@ -312,7 +318,14 @@ pub fn check_threads(t: Arc<tera::Tera>, reqs: &[Req], nctx: u64, nthreads: usiz
     let mut base: Vec<Vec<Result<String, String>>> = vec![];
     for r in reqs {
         // errors are compared by kind: message texts may list names in an unspecified order
-        base.push(ctxs.iter().map(|c| r.to_string_api(&t, c).map_err(|e| format!("{:?}", std::mem::discriminant(e.kind())))).collect());
+        let mut row = vec![];
+        for (ci, c) in ctxs.iter().enumerate() {
+            match guard(|| r.to_string_api(&t, c).map_err(|e| format!("{:?}", std::mem::discriminant(e.kind())))) {
+                Ok(x) => row.push(x),
+                Err(p) => return Err(Fail::new("C18/panic", format!("{} with context variant {ci}: {p}", r.json()), json!({"kind": "rich", "request": r.json(), "context_variant": ci}))),
+            }
+        }
+        base.push(row);
     }
     let base = Arc::new(base);
     let ctxs = Arc::new(ctxs);
@@ -436,6 +449,16 @@ pub fn run(rep: &Report) {
         if let Err(e) = t.add_raw_templates(tpls.clone()) {
             return Err(Fail::new("C18/valid-program-rejected", e.to_string(), json!({"kind": "generated", "templates": tpls})));
         }
+        // a third of the cases: one name is rebound to a byte string (valid, invalid, truncated UTF-8) after the budget filter;
+        // no model is involved in this check, only the agreement of the channels
+        let mut ctx = ctx.clone();
+        if salt % 3 == 0 {
+            const BLOBS: [&[u8]; 9] = [b"caf\xC3", b"\xff", b"\xE6\x97", b"ok<", b"\xF0\x9F\x98", b"a\x80b", b"", b"\xE6\x97\xA5\xE6", b"<\xC3\xA9\xC3"];
+            let name = stmtgen::NAMES[(splitmix(*salt) % stmtgen::NAMES.len() as u64) as usize];
+            ctx.insert(name.to_string(), MVal::Bytes(BLOBS[(splitmix(*salt ^ 77) % 9) as usize].to_vec()));
+            l.label("context:bytes");
+        }
+        let ctx = &ctx;
         let tc = ctx_to_tera_enc(ctx, &Enc::new(*salt));
         let req = Req::Template(name.to_string());
         check_request(&t, &req, &tc, &|| json!({"kind": "generated", "templates": tpls, "context": ctx_to_json(ctx), "global": ctx_to_json(glob), "salt": salt}), 300, *salt, l)
